@@ -29,9 +29,55 @@ void counts(Node **raw, int n)
 }
 }  // namespace
 
+// a cycle of nodes that only own each other, broken by an assignment to one of the member handles
+static void run_cycle(const C08CPlan *p)
+{
+  SimTag tag(SIM_TAG_SUT);
+  const int n = p->n, zid = p->n;
+  Node *raw[C08C_MAXN + 1];
+  for (int i = 0; i <= n; i++) {
+    raw[i] = new Node(i);
+    c08c_node_created(i);
+  }
+  for (int i = 0; i < n; i++) {
+    raw[i]->next = raw[(i + 1) % n];
+    c08c_linked(i, (i + 1) % n);
+  }
+  IntrusivePtr<Item> head = raw[0];
+  IntrusivePtr<Item> zh = raw[zid];
+  for (int i = 0; i <= n; i++)
+    raw[i]->refDec();
+  c08c_roots(0, -1);
+  c08c_zroot(zid);
+  counts(raw, n + 1);
+  c08c_drop_head_begin();
+  head = nullptr;  // the nodes keep each other alive
+  c08c_step_end(0, -1);
+  counts(raw, n + 1);
+  Node *at = raw[p->break_at % n];  // a plain, non-owning pointer
+  Item *z = raw[zid];
+  const int to = p->break_kind <= 2 ? zid : -1;
+  c08c_break_begin(p->break_at % n, to);
+  switch (p->break_kind) {
+  case 0: at->next = zh; break;
+  case 1: at->next = IntrusivePtr<Item>(zh); break;
+  case 2: at->next = z; break;
+  case 3: at->next = nullptr; break;
+  default: at->next = IntrusivePtr<Item>(); break;
+  }
+  c08c_step_end(1, -1);
+  counts(raw, n + 1);
+  c08c_step_begin(100, 5);
+  c08c_zroot(-1);
+  zh = nullptr;
+  c08c_step_end(100, -1);
+}
+
 extern "C" void c08c_run()
 {
   const C08CPlan *p = c08c_plan();
+  if (p->cycle)
+    return run_cycle(p);
   SimTag tag(SIM_TAG_SUT);
   Node *raw[C08C_MAXN];
   for (int i = 0; i < p->n; i++) {
